@@ -81,6 +81,7 @@ const (
 	vList   // a list (index into state.lists)
 	vConst  // a constant
 	vStruct // a non-node struct literal (index into state.structs)
+	vTuple  // the results of a helper that returns several values (index into state.tuples)
 )
 
 type gVal struct {
@@ -103,6 +104,7 @@ type gState struct {
 	locals   map[types.Object]gVal
 	lists    []*gList
 	structs  []map[string]gVal
+	tuples   [][]gVal
 	ctl      int // 0 none, 1 break, 2 continue, 3 return
 	ret      []gVal
 	errRec   bool // an error-recording call happened on the path
@@ -145,6 +147,9 @@ func (s *gState) clone() *gState {
 	}
 	c.ret = append([]gVal(nil), s.ret...)
 	c.notes = append([]string(nil), s.notes...)
+	for _, t := range s.tuples {
+		c.tuples = append(c.tuples, append([]gVal(nil), t...))
+	}
 	return c
 }
 
@@ -697,6 +702,27 @@ func (x *gx) cond(e ast.Expr, s *gState, want bool) []*gState {
 			}
 			// x == nil / x != nil for a local holding a sub-parse result: a nil result is an error path (R11.2)
 			if id, ok := ast.Unparen(v.Y).(*ast.Ident); ok && id.Name == "nil" {
+				// node.Field == nil for a field of the node under construction
+				if sel, ok := ast.Unparen(v.X).(*ast.SelectorExpr); ok {
+					if bid, ok := ast.Unparen(sel.X).(*ast.Ident); ok {
+						if bv, ok := s.locals[x.info.ObjectOf(bid)]; ok && bv.kind == vNode {
+							if fv, ok := s.fields[sel.Sel.Name]; ok {
+								switch fv.kind {
+								case vChild, vList:
+									if eq {
+										s.failed = true
+									}
+									return []*gState{s}
+								case vNil:
+									if eq {
+										return []*gState{s}
+									}
+									return nil
+								}
+							}
+						}
+					}
+				}
 				if lid, ok := ast.Unparen(v.X).(*ast.Ident); ok {
 					if lv, ok := s.locals[x.info.ObjectOf(lid)]; ok {
 						switch lv.kind {
@@ -1028,9 +1054,26 @@ func (x *gx) assign(a *ast.AssignStmt, s *gState) []*gState {
 	for _, o := range outs {
 		s0 := o.s
 		if len(a.Lhs) > 1 {
-			for _, l := range a.Lhs {
-				if id, ok := l.(*ast.Ident); ok && id.Name != "_" {
-					s0.locals[x.info.ObjectOf(id)] = gVal{}
+			var parts []gVal
+			if o.v.kind == vTuple && o.v.idx < len(s0.tuples) && len(s0.tuples[o.v.idx]) == len(a.Lhs) {
+				parts = s0.tuples[o.v.idx]
+			}
+			for i, l := range a.Lhs {
+				val := gVal{}
+				if parts != nil {
+					val = parts[i]
+				}
+				switch lt := ast.Unparen(l).(type) {
+				case *ast.Ident:
+					if lt.Name != "_" {
+						s0.locals[x.info.ObjectOf(lt)] = val
+					}
+				case *ast.SelectorExpr:
+					if id, ok := ast.Unparen(lt.X).(*ast.Ident); ok {
+						if lv, ok := s0.locals[x.info.ObjectOf(id)]; ok && lv.kind == vNode && parts != nil {
+							x.setField(s0, lt.Sel.Name, val)
+						}
+					}
 				}
 			}
 			res = append(res, s0)
@@ -1126,7 +1169,7 @@ func (x *gx) call(call *ast.CallExpr, s *gState) []gOut {
 			return one(s, gVal{})
 		case "subparse":
 			return x.subparse(call, f, s)
-		case "listhelper", "voidhelper":
+		case "listhelper", "voidhelper", "tuplehelper":
 			return x.inline(call, f, s)
 		}
 		x.issue("call of %s at %s: effect on the token stream not classified", f.Name(), x.c.pos(call.Pos()))
@@ -1238,6 +1281,17 @@ func (x *gx) inline(call *ast.CallExpr, f *types.Func, s *gState) []gOut {
 			o.ctl = ctlNone
 			o.ret = nil
 			res = append(res, gOut{o, gVal{}})
+			continue
+		}
+		if x.role(f) == "tuplehelper" {
+			if o.ctl != ctlReturn || len(o.ret) < 2 {
+				x.issue("helper %s can end without returning its values", f.Name())
+				continue
+			}
+			o.ctl = ctlNone
+			o.tuples = append(o.tuples, append([]gVal(nil), o.ret...))
+			o.ret = nil
+			res = append(res, gOut{o, gVal{kind: vTuple, idx: len(o.tuples) - 1}})
 			continue
 		}
 		if o.ctl != ctlReturn || len(o.ret) != 1 {
@@ -1416,6 +1470,8 @@ func (c *Ctx) parserRoles() map[*types.Func]string {
 			roles[f] = "subparse"
 		case sig.Results().Len() == 1 && isNodeSlice(sig.Results().At(0).Type()):
 			roles[f] = "listhelper"
+		case sig.Results().Len() >= 2 && isNodeSlice(sig.Results().At(0).Type()) && !usesFnField[f]:
+			roles[f] = "tuplehelper" // several node results (a list and a node, …): walked in the caller's state
 		case sig.Results().Len() == 0 && !usesFnField[f]:
 			roles[f] = "voidhelper" // consumes tokens, returns nothing: walked in the caller's state
 		}
